@@ -26,6 +26,10 @@ structure BuiltinSpec where
 inductive KwKind
   | delete | cross | as_ | dot | clear
   | unit (u : Calc.Unit)
+  /-- any other token kind the compiled scanner gives a word (by its protocol code): not used by the
+      shipped table; present so that a changed table can always be translated and then judged by
+      the theorems and streams instead of stopping the translator -/
+  | other (code : Nat)
   deriving DecidableEq, Repr, Inhabited
 
 /-- an entry of the initial variable table -/
